@@ -138,6 +138,10 @@ def instance_of(draw, schema, depth=0):
             if sized and draw(st.integers(0, 3)) > 0:
                 pool = sized
             pool = pool + ["a" * lo, "a" * max(hi, 0), "a" * (hi + 1), "ab" * lo]
+            # Draft 6 counts CHARACTERS (code points): strings whose count differs from their UTF-16 / UTF-8 /
+            # normalised length, exactly at and next to the limits
+            for n in {lo, max(hi, 0), hi + 1, max(lo - 1, 0)}:
+                pool += jv.counted_strings(n)
         return draw(st.sampled_from(pool))
     if ty == "array":
         items = s.get("items", True)
